@@ -48,12 +48,12 @@ class Point:
 
     def iv(self, name):
         if name not in self.ivs:
-            self.ivs[name] = self.rng.randrange(self.nrows)
+            self.ivs[name] = self.rng.randrange(2 * self.nrows + 1)
         return self.ivs[name]
 
     def size(self, key):
         if key not in self.sizes:
-            self.sizes[key] = self.nrows
+            self.sizes[key] = self.rng.randint(1, self.nrows + 1)
         return self.sizes[key]
 
 
